@@ -669,6 +669,22 @@ func c09Seq(c *fw.Ctx, i int) {
 			if r.Chance(1, 60) {
 				p = c09Huge(r, kind.codec)
 				pk = 'H'
+			} else if kind.codec == "av1" && r.Chance(1, 4) {
+				// aggregation header, then length fields / OBU size fields that are LEB128 monsters
+				p = []byte{byte(r.Pick(0x00, 0x10, 0x20, 0x30, 0x40, 0x80, 0xC0, r.Intn(256)))}
+				for k := r.Range(1, 3); k > 0; k-- {
+					if r.Bool() {
+						p = append(p, gen.LEBMonster(r)...)
+					} else {
+						p = append(p, byte(r.Range(1, 12)))
+					}
+					p = append(p, byte(r.Pick(0x32, 0x30, 0x0A, 0x36, r.Intn(256))))
+					if r.Bool() {
+						p = append(p, gen.LEBMonster(r)...)
+					}
+					p = append(p, r.Bytes(r.Range(0, 6))...)
+				}
+				pk = 'L'
 			}
 		default:
 			if len(pool) == 0 {
@@ -715,6 +731,48 @@ func c09Seq(c *fw.Ctx, i int) {
 		if !s.feed(c, p, r) {
 			return
 		}
+	}
+	if (kind.codec == "av1" || kind.codec == "h264") && i%8000 < len(c09Kinds) {
+		// one unit reassembled from many large fragments: its total passes 2^21 bytes, where the size written in front of the
+		// reassembled unit needs one more byte
+		total := r.Pick(1<<21-1, 1<<21, 1<<21+1, 1<<21+70000)
+		frag := r.Pick(60000, 65535, 40000)
+		sent := 0
+		for k := 0; sent < total; k++ {
+			nb := frag
+			if total-sent < nb {
+				nb = total - sent
+			}
+			last := sent+nb >= total
+			var p []byte
+			if kind.codec == "av1" {
+				h := byte(0x10) // W=1
+				if k > 0 {
+					h |= 0x80 // Z
+				}
+				if !last {
+					h |= 0x40 // Y
+				}
+				p = append([]byte{h}, r.Bytes(nb)...)
+				if k == 0 {
+					p[1] = 6 << 3 // OBU_FRAME, no size field
+				}
+			} else {
+				fh := byte(5)
+				if k == 0 {
+					fh |= 0x80
+				}
+				if last {
+					fh |= 0x40
+				}
+				p = append([]byte{0x60 | 28, fh}, r.Bytes(nb)...)
+			}
+			sent += nb
+			if !s.feed(c, p, r) {
+				return
+			}
+		}
+		c.Count("units_reassembled_to_2MiB_and_more", 1)
 	}
 	s.shape(c, kinds)
 	if c.WantSample() {
